@@ -120,12 +120,14 @@ Fixpoint q_update_loop (push : bool) (rs : list qreq) (s : S) (fout : Q) (remove
       else match r_time r with
       | O =>
           let v := r_v r in
-          let '(s', rem) :=
-            if push then let '(s', reply) := p_push_set P s v in (s', vol v - vol reply)
-            else (s, vol v) in
+          (* a push: what the receiver hands back IS the rejected part (whatever its composition), the parcel less
+             that is what was delivered; a pull: everything queued is handed over *)
+          let '(s', rem, dlv, bck) :=
+            if push then let '(s', reply) := p_push_set P s v in (s', vol v - vol reply, vsub v reply, reply)
+            else (s, vol v, vchange v (vol v), vchange v (vol v - vol v)) in
           let fout' := Qred (fout + r_avg r * rem / vol v) in
-          let removed' := vsum removed (vchange v rem) in
-          let back' := vsum (vchange v (vol v - rem)) back in
+          let removed' := vsum removed dlv in
+          let back' := vsum bck back in
           q_update_loop push rest s' fout' removed' back'
       | _ =>
           let '(rest', s', fo, rm, bk) := q_update_loop push rest s fout removed back in
@@ -221,7 +223,7 @@ Definition l_update (l : altarc) (s : S) : altarc * S * vqip :=
   let tr := bget (l_b l) 0 in
   let '(s', back) := p_push_set P s tr in
   let b' := match l_b l with [] => [] | _ :: rest => vzero :: rest end in
-  let tr' := vchange tr (vol tr - vol back) in
+  let tr' := vsub tr back in
   let a := l_a l in
   let a' := mkA (a_cap a) (a_fin a) (Qred (a_fout a + vol tr')) (a_vin a) (vsum (a_vout a) tr') in
   (mkAlt a' (l_n l) b' (l_qs l) (l_qs_ l) (l_dec l) (l_decayed l) (l_T l), s', back).
